@@ -18,7 +18,7 @@ RULE = ("Cases (layout): 4-14 distinct sensors (pairwise separation >= 1e-3 of t
 ASSUMPTIONS = [
     "layouts stay away from degeneracy (duplicate sensors, sensors on the boundary) where nearest-sensor regions are not unique",
     "boundary extents stay below 1e4 so that the code's fixed 1e6 'far point' radius lies outside the boundary (the quantifier's relative-coordinate regime)",
-    "area comparison |dw| <= 1e-6; invariances 1e-6; Monte-Carlo formulas rtol 1e-10",
+    "area comparison |dw| <= 1e-6 (2e-5 for tight line arrays); invariances likewise; Monte-Carlo formulas rtol 1e-10",
 ]
 BUDGET = {"quick": 1200, "thorough": 30000}
 SHARDS = {"quick": 8, "thorough": 16}
@@ -175,6 +175,9 @@ def check_layout(hv, L, labels):
         labels.append("layout-skipped-close-sensors")
         return False
     w_ref, idx_ref, cells, margin, cut, size = ref_weights(coords, boundary)
+    # nearly collinear sensors have Voronoi vertices thousands of array lengths away: the library's polygon areas are then
+    # good to about 1e-5 only (observed 1.1e-6 for 99 sensors), elsewhere to 1e-9
+    wtol = 2e-5 if L["pattern"] == "line-tight" else 1e-6
     if margin < 1e-6 * E or len(idx_ref) < 4:
         labels.append("layout-skipped-degenerate")
         return False
@@ -202,9 +205,9 @@ def check_layout(hv, L, labels):
     if list(idx) != list(idx_ref):
         raise Violation(f"retained sensor indices {list(idx)} differ from the sensors strictly inside the boundary hull {idx_ref}")
     require(np.all(w >= -1e-12), f"negative weight {w.min()!r}")
-    if abs(w.sum() - 1.0) > 1e-6:
+    if abs(w.sum() - 1.0) > wtol:
         raise Violation(f"weights sum to {w.sum()!r} (boundary about {size / (2 * E):.3g} x the array extent, offset 10^{L['offset_exp']:.2f} x extent)")
-    if not np.all(np.abs(w - w_ref) <= 1e-6):
+    if not np.all(np.abs(w - w_ref) <= wtol):
         j = int(np.argmax(np.abs(w - w_ref)))
         raise Violation(f"weight of sensor {idx_ref[j]} is {w[j]!r}, its nearest-sensor share of the boundary region is {w_ref[j]!r} "
                         f"(boundary about {size / (2 * E):.3g} x the array extent, {len(idx_ref)} of {len(coords)} sensors retained)")
@@ -215,7 +218,7 @@ def check_layout(hv, L, labels):
     for reg, j, wj in zip(regions, idx_ref, w_ref):
         poly = [tuple(np.asarray(v, dtype=float) - coords[j]) for v in reg]
         a = _area(poly)
-        require(abs(a / total - wj) <= 1e-6, f"bounded_voronoi polygon of sensor {j} has area share {a / total!r}, expected {wj!r}")
+        require(abs(a / total - wj) <= wtol, f"bounded_voronoi polygon of sensor {j} has area share {a / total!r}, expected {wj!r}")
         hullp = _hull(poly)
         require(_signed_dist_inside(hullp, (0.0, 0.0)) > -1e-9 * size, f"bounded_voronoi polygon of sensor {j} does not contain the sensor")
     # one object used repeatedly (the documented workflow calls spatial_weights and bounded_voronoi on the same object):
@@ -234,7 +237,7 @@ def check_layout(hv, L, labels):
         bnd *= factor                   # the caller resizes its boundary array in place and asks again
         bnd += cen_b
         w_b, i_b = sut(obj.spatial_weights, bnd, what="spatial_weights (second call on an object)")
-        if list(i_b) != list(idx2_ref) or not np.all(np.abs(np.asarray(w_b) - w2_ref) <= 1e-6):
+        if list(i_b) != list(idx2_ref) or not np.all(np.abs(np.asarray(w_b) - w2_ref) <= wtol):
             raise Violation(f"a second spatial_weights call on the same object, after the boundary array was resized in place (x{factor}), returns sensors {list(i_b)} with weights "
                             f"{np.round(np.asarray(w_b), 6).tolist()}; the nearest-sensor shares of the new region are {idx2_ref} / {np.round(w2_ref, 6).tolist()}")
         labels.append("object-reused-after-boundary-edit")
@@ -244,15 +247,15 @@ def check_layout(hv, L, labels):
     wp, ip = sut(hv.HvsrSpatial(coords[p]).spatial_weights, boundary, what="spatial_weights(permuted)")
     back = {int(p[k]): float(wk) for k, wk in zip(ip, wp)}
     require(sorted(back) == sorted(idx_ref), "permuting the sensors changes which sensors are retained")
-    require(all(abs(back[j] - wj) <= 1e-6 for j, wj in zip(idx_ref, w)), "permuting the sensors changes their weights")
+    require(all(abs(back[j] - wj) <= wtol for j, wj in zip(idx_ref, w)), "permuting the sensors changes their weights")
     sh = np.array(L["shift"]) * E / 1e4 * 10
     wt, it = sut(hv.HvsrSpatial(coords + sh).spatial_weights, boundary + sh, what="spatial_weights(translated)")
-    require(list(it) == list(idx_ref) and np.all(np.abs(np.asarray(wt) - w) <= 1e-6), f"translating all coordinates by {sh.tolist()} changes the weights (max diff {np.max(np.abs(np.asarray(wt) - w)):.3g})")
+    require(list(it) == list(idx_ref) and np.all(np.abs(np.asarray(wt) - w) <= wtol), f"translating all coordinates by {sh.tolist()} changes the weights (max diff {np.max(np.abs(np.asarray(wt) - w)):.3g})")
     s = 2.0 ** L["k"]
     # the scaled copy must itself lie in the regime of the fixed 1e6 far-point radius (see the guard above)
     if size * s < 5e4 and 1e6 * math.sin(amin / 2.0) >= 5.0 * rb * s:
         ws_, is_ = sut(hv.HvsrSpatial(coords * s).spatial_weights, boundary * s, what="spatial_weights(scaled)")
-        require(list(is_) == list(idx_ref) and np.all(np.abs(np.asarray(ws_) - w) <= 1e-6), f"scaling all coordinates by 2^{L['k']} changes the weights")
+        require(list(is_) == list(idx_ref) and np.all(np.abs(np.asarray(ws_) - w) <= wtol), f"scaling all coordinates by 2^{L['k']} changes the weights")
     culled = len(idx_ref) < len(coords)
     if culled:
         labels.append("culled-sensor")
